@@ -112,25 +112,31 @@ inductive StructCall where
   | notBelowRoot                       -- MethodNotFound (unreachable through `Router::get`)
   | invalidBody                        -- body format rejected
   | undecodable                        -- `Err(RepeError::Json/Beve)`
+  | lockError                          -- `Lockable::lock` failed (poisoned / other): ParseError
   | handle (segs : List Str) (hasBody : Bool)
   deriving DecidableEq, Repr
 
 def structCall (stackSegs : Nat) (g : Gate) (emptyIsRead : Bool) (root path : Str) (bfmt : Nat) (body : Bytes)
-    (decodes : Decoder → Bool) : StructCall :=
+    (decodes : Decoder → Bool) (lockFails : Bool := false) : StructCall :=
   match relativePointer root path with
   | none => .notBelowRoot
   | some rel =>
+    -- the lock is taken after the body has been decoded
+    let locked (c : StructCall) : StructCall := if lockFails then .lockError else c
     match structBodyGate g emptyIsRead bfmt body with
-    | none => .handle (dispatchSegments stackSegs rel) false
+    | none => locked (.handle (dispatchSegments stackSegs rel) false)
     | some none => .invalidBody
-    | some (some d) => if decodes d then .handle (dispatchSegments stackSegs rel) true else .undecodable
+    | some (some d) => if decodes d then locked (.handle (dispatchSegments stackSegs rel) true) else .undecodable
 
 /-- The struct the harness derives (`Demo` in fam_router.rs): a plain field, a read-only field, a struct
 nested two levels deep, and three methods. -/
 def demoSpec : Spec :=
   [("a".toList, .leaf false), ("ro".toList, .leaf true),
    ("inner".toList, .nested false [("x".toList, .leaf false), ("deep".toList, .nested false [("z".toList, .leaf false)])]),
-   ("echo".toList, .method true false), ("ping".toList, .method false false), ("touch".toList, .method false true)]
+   ("echo".toList, .method true false), ("ping".toList, .method false false), ("touch".toList, .method false true),
+   ("boom".toList, .method true false),
+   -- `#[repe(rename = "alias")] renamed` answers to "alias" only; `#[repe(skip)] hidden` is no endpoint
+   ("alias".toList, .leaf false)]
 
 
 end Repe.Router
